@@ -195,18 +195,23 @@ Section Network.
         | None => alist_set inv idx [fst kv]
         end) (snd kv) inv) m [].
 
-  Definition blayer_backward (b : blayer) (g input output : tensor)
+  Definition blayer_backward (b : blayer) (g input output : tensor) (mx : option maxidx)
     : res (tensor * tensor * option tensor) :=
     match b with
     | BDense l => dense_backward l g input output
     | BConv l => conv_backward l g input output
     | BDeconv l => deconv_backward l g input output
-    | BMaxpool _ => Panic P_explicit
+    | BMaxpool l =>
+        (* `if let Some(Some(max)) = maxpools.get(idx)` else "Maxpool indices are missing." *)
+        match mx with
+        | Some idx => do ig <- maxpool_backward l g idx; Ok (ig, t_single N (repeat zero 0), None)
+        | None => Panic P_explicit
+        end
     end.
 
   (* returns (input gradient, weight gradients, bias gradients), the lists in reversed layer order *)
   Definition feedback_backward (b : feedback) (gradient : tensor)
-             (unactivated activated : list tensor)
+             (unactivated activated : list tensor) (maxpools : list (option maxidx))
     : res (tensor * list tensor * list (option tensor)) :=
     let len := length (f_layers b) in
     let inv := invert_connect (f_connect b) in
@@ -229,7 +234,8 @@ Section Network.
                            | None => Ok gs
                            end);
                 do lastg <- (match last_opt gs1 with Some t => Ok t | None => Panic P_unwrap end);
-                do r <- blayer_backward lyr lastg input output;
+                let mx := match nth_error maxpools idx with Some m => m | None => None end in
+                do r <- blayer_backward lyr lastg input output mx;
                 let '(g, wg, bg) := r in
                 Ok (gs1 ++ [g], wgs ++ [wg], bgs ++ [bg]))
               (combine (seq 0 len) (rev (f_layers b))) ([gradient], [], []);
@@ -350,6 +356,8 @@ Section Network.
     let ps := flat_map (fun b => match blayer_weights b with Some p => [p] | None => [] end) members in
     let count := of_nat (length ps) in
     let nested := existsb (fun b => match b with BConv _ | BDeconv _ => true | _ => false end) members in
+    (* layers without parameters (max-pool) have nothing to couple *)
+    if (length ps =? 0) then Ok layers else
     do w <- couple_lists nested acc count (map fst ps);
     let biases := flat_map (fun p => match snd p with Some b => [b] | None => [] end) ps in
     do bias <- (match biases with
@@ -638,7 +646,8 @@ Section Network.
   Record fwd := {
     fw_pre : list tensor; fw_post : list tensor;
     fw_max : list (option mpval);
-    fw_fb : list (list tensor * list tensor) }.
+    (* per block: unactivated, activated and the block's own max-pool indices *)
+    fw_fb : list (list tensor * list tensor * list (option maxidx)) }.
 
   (* `_forward(input, from, to)` : plain sequential pass through layers[from..to] *)
   Definition forward_range (layers : list layer) (input : tensor) : res fwd :=
@@ -660,7 +669,7 @@ Section Network.
                 | LFeedback b => do r <- feedback_forward b x;
                     Ok {| fw_pre := fw_pre st ++ [fo_pre r]; fw_post := fw_post st ++ [fo_post r];
                           fw_max := fw_max st ++ [Some (MPNested (fo_max r))];
-                          fw_fb := fw_fb st ++ [(fo_unactivated r, fo_activated r)] |}
+                          fw_fb := fw_fb st ++ [(fo_unactivated r, fo_activated r, fo_max r)] |}
                 end)
               layers {| fw_pre := []; fw_post := [input]; fw_max := []; fw_fb := [] |};
     (* `activated.remove(0)` *)
@@ -774,7 +783,7 @@ Section Network.
                  end) (sort_by_key m) [].
 
   Definition layer_backward (l : layer) (g input output : tensor) (mx : option mpval)
-             (fb : option (list tensor * list tensor))
+             (fb : option (list tensor * list tensor * list (option maxidx)))
     : res (tensor * grad * option bgrad) :=
     match l with
     | LDense d => do r <- dense_backward d g input output;
@@ -790,8 +799,8 @@ Section Network.
         end
     | LFeedback b =>
         match fb with
-        | Some (unact, act) =>
-            do r <- feedback_backward b g unact act;
+        | Some (unact, act, mps) =>
+            do r <- feedback_backward b g unact act mps;
             Ok (fst (fst r), GNested (snd (fst r)), Some (BNestedOpt (snd r)))
         | None => Panic P_unwrap
         end
@@ -803,7 +812,7 @@ Section Network.
     let layers := n_layers n in
     let len := length layers in
     let inv := invert_net_connect (n_connect n) in
-    do st <- foldM (fun (st : list tensor * list grad * list (option bgrad) * list (list tensor * list tensor) * list tensor) il =>
+    do st <- foldM (fun (st : list tensor * list grad * list (option bgrad) * list (list tensor * list tensor * list (option maxidx)) * list tensor) il =>
                 let '(gs, wgs, bgs, fbs, ps) := st in
                 let '(i, lyr) := (il : nat * layer) in
                 let idx := len - i - 1 in
